@@ -7,3 +7,5 @@ import Glas.Props.C01
 #print axioms Glas.Props.C01.glas_policyOK
 #print axioms Glas.Props.C01.buildTree_lossless
 #print axioms Glas.Props.C01.C01_lossless
+#print axioms Glas.Props.C01.buildTree_rootStart_needed
+#print axioms Glas.Props.C01.glas_rootStart
